@@ -212,3 +212,19 @@ package cluster
 //@ func (*ClusterNode).syncUserCollections$2
 //@   property C14
 //@   before Write requires lastres(RPCSetNodeKeyValue) == nil && rpcResp.Count == len(req.KeyValues)
+
+// ---- internal routing of an RPC (property C17): success is reported only for a completed call ----
+//@ func (Destinationer).Destination
+//@   trusted
+//@   pure
+
+//@ func (*ClusterNode).rpcClient
+//@   trusted
+//@   modifies c.rpcClients
+
+//@ func (*ClusterNode).internalRoute
+//@   property C17
+//@   safety -overflow -panic
+//@   requires c.cfg.RpcRetries >= 1
+//@   ensures result == nil ==> callres(Go, 1, 0).Error == nil
+//@   loop 1 invariant i >= 0 && (i == 0 || retryErr != nil || i < c.cfg.RpcRetries) && unheld(c.rpcClientsMu)
